@@ -16,6 +16,14 @@ import torch
 
 from ..core import tdigest
 
+class NanProbability(RuntimeError):
+    """What torch.bernoulli itself raises for a probability outside [0,1] (NaN after a
+    numerically diverged training step).  Emulated faithfully by the seam; marked so that it is
+    attributed to the run's numerics, not to the harness and not to the property."""
+
+    qsim_emulates_torch = True
+
+
 _PATCHED = ("bernoulli", "randn", "randperm", "randint", "rand", "rand_like")
 
 
@@ -108,7 +116,7 @@ class RngSeam:
 
     def _draw_bernoulli(self, pa):
         if not np.all((pa >= 0) & (pa <= 1)):  # also catches NaN, like torch does
-            raise RuntimeError("Expected p_in >= 0 && p_in <= 1 to be true, but got false.")
+            raise NanProbability("Expected p_in >= 0 && p_in <= 1 to be true, but got false.")
         u = self.gen.random(pa.shape)
         outcome = u < pa
         if self.mode == "rare" and self.rare > 0.0:
